@@ -52,7 +52,8 @@ def run_encode(prog, xs, l, m, v):
 
 
 def job_cell(job):
-    v, l, m, lengths, seed, nval = job
+    v, l, m, lengths, seed, nval = job[:6]
+    full_limit = job[6] if len(job) > 6 else 1 << 30
     prog = worker_prog()
     extra = worker_extra()
     level, mode = iso.LEVELS[l], iso.MODES[m]
@@ -66,8 +67,15 @@ def job_cell(job):
     pending_inc = []
     for n in lengths:
         T.reset()
-        xs = [T.var('c%d' % i, 8) for i in range(n)]
-        asm = alphabet_assumptions(m, xs)
+        if m != 2 and n > full_limit:
+            # long numeric/alphanumeric payload: the first 6 and the last 12 characters are symbolic, the middle is a fixed
+            # seed-chosen string of the alphabet (every group costs the solver ~0.1 s; stated in the bounds)
+            mid = random_payload(rnd, m, n)
+            xs = [T.var('c%d' % i, 8) if (i < 6 or i >= n - 12) else mid[i] for i in range(n)]
+            res['windowed'] = res.get('windowed', 0) + 1
+        else:
+            xs = [T.var('c%d' % i, 8) for i in range(n)]
+        asm = alphabet_assumptions(m, [x for x in xs if type(x) is not int])
         try:
             I, r = run_encode(prog, xs, l, m, v)
         except M.Unsupported as e:
@@ -123,7 +131,7 @@ def job_cell(job):
             raise Inconclusive('solver returned unknown (V%02d-%s %s n=%d): %s' % (v + 1, level, mode, n, unk[:2]))
         for lab, model in fails[:1]:
             model = model or {}
-            data = [model.get('c%d' % i, 0x30 if m == 0 else 0x41 if m == 1 else 0) for i in range(n)]
+            data = [xs[i] if type(xs[i]) is int else model.get('c%d' % i, 0x30 if m == 0 else 0x41 if m == 1 else 0) for i in range(n)]
             ans = native.ask('encode %s %d %d %d' % (OV.hexs(data), l, m, v))
             req = 'encode %s %d %d %d' % (OV.hexs(data), l, m, v)
             confirmed, what = False, 'model not reproduced (%s)' % lab
@@ -154,6 +162,7 @@ def job_cell(job):
         # translator validation
         for t in range(nval):
             data = random_payload(rnd, m, n)
+            data = [xs[i] if type(xs[i]) is int else data[i] for i in range(n)]
             Ic, rc = run_encode(prog, data, l, m, v)
             ans = native.ask('encode %s %d %d %d' % (OV.hexs(data), l, m, v))
             f = OV.parse_fields(ans)
@@ -269,12 +278,8 @@ def cell_lengths(v, l, m, tier, rng):
         s.update(range(0, min(7, cap + 1)))
         s.update(range(max(0, cap - (12 if (tier == 'thorough' or v == 0) else 4)), cap + 1))
     elif tier == 'quick':
-        # count-width classes: the count field does not depend on the payload length, so short payloads under a
-        # (forced) large version exercise it; full-capacity cells of the large versions are left to the thorough tier
-        # (V40 at capacity alone costs 20-80 s of one core)
-        s.update([1, 2, 3, 4, 5])
-        if m == 2 and v < 20:
-            s.add(cap)
+        # count-width class representatives: short payloads and the three lengths at capacity
+        s.update([1, 2, 3, 4, 5, cap - 2, cap - 1, cap])       # the capacity lengths are windowed above 200 characters
     else:
         s.update([cap, cap - 1, cap - 2])
         if tier == 'thorough':
@@ -323,17 +328,20 @@ def main(argv):
         if chk.tier == 'thorough' and v < 2:
             cap = capacity_chars(v + 1, iso.LEVELS[l], iso.MODES[m])
             lens = list(range(cap + 1))
-        jobs.append((v, l, m, lens, chk.seed, 1 if chk.tier == 'quick' else 2))
+        jobs.append((v, l, m, lens, chk.seed, 1 if chk.tier == 'quick' else 2, 200 if chk.tier == 'quick' else 700))
     jobs.sort(key=lambda j: -(j[0] * len(j[3])))
-    chk.jobs(job_cell, jobs, extra={'native': native_path})
+    rs = chk.jobs(job_cell, jobs, extra={'native': native_path})
+    chk.cov['windowed_runs'] = sum(r.get('windowed', 0) for r in rs)
     # inductive step of push_bits: every alignment 0..24 x every width 0..16
     pj = [(bl, w, 6) for bl in (range(0, 25) if chk.tier == 'thorough' else range(0, 17)) for w in range(0, 17)]
     chk.jobs(job_push_bits, pj, extra={'native': native_path})
     chk.cov['cells'] = len(cells)
     chk.cov['push_bits_steps'] = len(pj)
-    chk.bounds += ['cells (version, level, mode): %d; lengths per cell as listed in DESIGN.md 4/C06 (quick: V1-V3 all levels/modes at 0..6 and cap-12..cap, '
-                   'V9/V10/V26/V27/V40 at capacity; thorough: all 480 cells, every length for V1-V2)' % len(cells),
-                   'payload lengths are enumerated, payload contents are symbolic (every byte of the mode alphabet at every position)',
+    chk.bounds += ['cells (version, level, mode): %d; lengths per cell (quick: V1 all levels/modes and V2, V3 one level per mode at 0..6 and cap-4..cap (V1: cap-12..cap); '
+                   'V9/V10/V26/V27/V40 one level at 1..5 and cap-2..cap; thorough: all 480 cells at 0..3, cap/2, cap-2..cap, every length for V1-V2)' % len(cells),
+                   'payload lengths are enumerated, payload contents are symbolic (every byte of the mode alphabet at every position); '
+                   'numeric/alphanumeric payloads longer than %d characters are windowed: first 6 and last 12 characters symbolic, the middle a fixed '
+                   'seed-chosen string (%d such runs)' % (200 if chk.tier == 'quick' else 700, chk.cov['windowed_runs']),
                    'push_bits: buffer length 0..%d bits x width 0..16, buffer bytes and value symbolic' % (24 if chk.tier == 'thorough' else 16)]
     chk.outside += ['lengths between the listed ones for versions >= 3 (the packers have no length-dependent behaviour beyond residues mod 3/2 and the terminator, which the listed lengths cover)',
                     'forced modes whose alphabet does not contain the input (documented panic)']
